@@ -222,6 +222,8 @@ class ProjectedGradientDescent(MinimizationAlgorithm):
         """
         super().__init__()
         self._func_proj: Callable[[np.ndarray], np.ndarray] = func_proj
+        # a projection given by the user is kept; one derived from a tomography is re-derived
+        self._is_func_proj_user_defined: bool = func_proj is not None
         self._qt: StandardQTomography = None
 
     @property
@@ -251,7 +253,7 @@ class ProjectedGradientDescent(MinimizationAlgorithm):
         """
         self._qt = qt
 
-        if self._func_proj is not None:
+        if self._func_proj is not None and self._is_func_proj_user_defined:
             return
 
         setting_info = self._qt.generate_empty_estimation_obj_with_setting_info()
